@@ -132,6 +132,23 @@ func c30Mutations() []c30Mutation {
 			return out, true
 		}}
 	}
+	// a well-formed but wrong signature: one hex digit in the middle changed
+	alterMid := func(name, kind string, last bool) c30Mutation {
+		return c30Mutation{name, func(ps []c30Piece) ([]c30Piece, bool) {
+			d := c30Find(ps, kind)
+			if len(d) == 0 {
+				return nil, false
+			}
+			i := d[0]
+			if last {
+				i = d[len(d)-1]
+			}
+			out := c30Clone(ps)
+			t := out[i].Text
+			t[len(t)/2] = c28Alt(t[len(t)/2])
+			return out, true
+		}}
+	}
 	sizeDelta := func(name string, delta int64, final bool) c30Mutation {
 		return c30Mutation{name, func(ps []c30Piece) ([]c30Piece, bool) {
 			d := c30Find(ps, "size")
@@ -164,6 +181,7 @@ func c30Mutations() []c30Mutation {
 		alter("chunk-signature-first", "sig", false), alter("chunk-signature-final", "sig", true),
 		sizeDelta("chunk-size-plus-1", 1, false), sizeDelta("chunk-size-minus-1", -1, false), sizeDelta("final-chunk-size-1", 1, true),
 		alter("trailer-checksum", "tvalue", false), alter("trailer-signature", "tsig", false),
+		alterMid("chunk-signature-first-middle-digit", "sig", false), alterMid("chunk-signature-final-middle-digit", "sig", true), alterMid("trailer-signature-middle-digit", "tsig", false),
 		{"trailer-removed", func(ps []c30Piece) ([]c30Piece, bool) {
 			d := c30Find(ps, "tname")
 			if len(d) == 0 {
@@ -299,12 +317,18 @@ func c30Put(c c30Case, key string, now time.Time) (wire []byte, payload []byte, 
 		req.Header.Set("X-Amz-Trailer", "x-amz-checksum-"+st.Algo)
 	}
 	if c.signedRequest() {
-		signer := v4.NewSigner(func(o *v4.SignerOptions) { o.DisableURIPathEscaping = true })
-		if err = signer.SignHTTP(context.Background(), c29Creds(), req, st.Mode, "s3", c29Region, now); err != nil {
-			return
+		if c30IsV4a(st.Mode) {
+			if st.SeedSig, err = c30SignV4aRequest(req, st.Mode, now); err != nil {
+				return
+			}
+		} else {
+			signer := v4.NewSigner(func(o *v4.SignerOptions) { o.DisableURIPathEscaping = true })
+			if err = signer.SignHTTP(context.Background(), c29Creds(), req, st.Mode, "s3", c29Region, now); err != nil {
+				return
+			}
+			auth := req.Header.Get("Authorization")
+			st.SeedSig = auth[strings.LastIndex(auth, "Signature=")+len("Signature="):]
 		}
-		auth := req.Header.Get("Authorization")
-		st.SeedSig = auth[strings.LastIndex(auth, "Signature=")+len("Signature="):]
 		var b2 []byte
 		if b2, err = encode(); err != nil {
 			return
@@ -431,9 +455,12 @@ func c30Run(e *c30Env, c c30Case, now time.Time) (c30Outcome, error) {
 func c30Groups(quick bool) []c30Case {
 	type ma struct{ mode, algo string }
 	var modes []ma
-	modes = append(modes, ma{c30ModeSigned, ""})
+	modes = append(modes, ma{c30ModeSigned, ""}, ma{c30ModeECDSA, ""})
 	for _, a := range c30Algos {
 		modes = append(modes, ma{c30ModeSignedTrailer, a}, ma{c30ModeUnsignedTrailer, a})
+		if !quick || a == "crc32" || a == "sha256" {
+			modes = append(modes, ma{c30ModeECDSATrailer, a})
+		}
 	}
 	sizes := []int{0, 1, 10, 8192, 65537}
 	if !quick {
@@ -484,7 +511,7 @@ func TestC30(t *testing.T) {
 	run := ev.NewRun("C30", "exploration")
 	run.Assumptions = []string{
 		"full server.SetupServer handler over a SQLite/SQL-part-store storage, Lua authorizer 'return true' (anonymous access permitted); wire-faithful in-process requests; virtual clock",
-		"encoder and reference decoder written from the AWS documentation (c30_chunk_test.go); request headers are signed by aws-sdk-go-v2 for the body actually sent, so a failure can only come from the chunk layer",
+		"encoder and reference decoder written from the AWS documentation (c30_chunk_test.go); request headers are signed by aws-sdk-go-v2 (SigV4) or by the harness' own SigV4a signer (c30_v4a_test.go; the SDK's v4a signer is an internal package) for the body actually sent, so a failure can only come from the chunk layer",
 		"auth-off: no credentials configured, the client still signs (chunk signatures cannot be verified by the server and carry no obligation there); anonymous / auth-off-plain: unsigned chunks only",
 		"bytes after the terminating chunk: the statement is silent; either outcome (ignored, or rejected without trace) is accepted",
 	}
@@ -627,8 +654,8 @@ func TestC30(t *testing.T) {
 	}
 	run.Cov["evaluations"] = evaluations
 	run.Cov["distinct_nontrivial"] = len(distinct)
-	run.Cov["rule"] = "baselines = {auth-on signed, anonymous, auth-off signed, auth-off plain} x {signed chunks, signed chunks+trailer x 5 checksum algorithms, unsigned chunks+trailer x 5} (anonymous: unsigned only) x payload sizes {0,1,10,8192,65537} (thorough: also 2,100,16384) x chunk schedules {one chunk, 5+rest, all 1-byte, 8 KiB, mixed} x {key new, key has previous content}; " +
-		"every baseline of the mutation subset x the catalogue of c30Mutations (payload byte first/middle/last, chunk signature first/final, chunk size +1/-1, final chunk size 1, trailer checksum, trailer signature, trailer removed / other algorithm, missing final chunk, cut at chunk boundary, cut mid chunk, extra chunk, extra bytes after end, garbage body, empty body). " +
+	run.Cov["rule"] = "baselines = {auth-on signed, anonymous, auth-off signed, auth-off plain} x {HMAC-signed chunks, HMAC-signed chunks+trailer x 5 checksum algorithms, ECDSA(SigV4a)-signed chunks, ECDSA-signed chunks+trailer x {crc32, sha256} (thorough: x 5), unsigned chunks+trailer x 5} (anonymous: unsigned only) x payload sizes {0,1,10,8192,65537} (thorough: also 2,100,16384) x chunk schedules {one chunk, 5+rest, all 1-byte, 8 KiB, mixed} x {key new, key has previous content}; " +
+		"every baseline of the mutation subset x the catalogue of c30Mutations (payload byte first/middle/last, chunk signature first/final (first digit and middle digit), chunk size +1/-1, final chunk size 1, trailer checksum, trailer signature, trailer removed / other algorithm, missing final chunk, cut at chunk boundary, cut mid chunk, extra chunk, extra bytes after end, garbage body, empty body). " +
 		"Each case = PUT through server.SetupServer then GET; judged by the harness' reference decoder. Non-trivial = everything but the empty payload without trailer; distinct = distinct case tuples"
 	run.Cov["baseline_groups"] = len(groups)
 	run.Cov["outcomes"] = hist
